@@ -585,3 +585,14 @@ OBLIGATIONS.append(Ob("global_index_map_of_output_arrays", _c01.ob_global_arrays
 OBLIGATIONS.append(Ob("y_coordinate_affine", ob_y_coordinate_affine, tier="quick", family="theta",
                       desc="y-coord is affine in the file index for uniform dy: centre k*dy, lower faces (k-1/2)*dy", encodes=["hypnotoad.core.mesh:BoutMesh.writeGridfile"],
                       bounds="nx=2, ny=4, dy symbolic"))
+
+
+def _xarrays_from_regions(env):
+    # resolved at call time: harness.c06 imports harness.c02, which imports this module's siblings (no import cycle at load time)
+    import harness.c06 as m
+    return m.ob_xarrays_from_regions(env)
+
+
+OBLIGATIONS.append(Ob("chi_denominator_defined_on_closed_surfaces", _xarrays_from_regions, tier="quick", family="theta",
+                      desc="ShiftAngle (the denominator of chi) is collected at centre AND xlow for the core y-group, wherever the core sits in y: chi and chi_xlow are defined on closed field lines (shared with C06)",
+                      encodes=["hypnotoad.core.mesh:BoutMesh.geometry"], bounds="4 regions in 3 y-groups, values symbolic"))
